@@ -9,8 +9,8 @@
    publication period (20) and the capacity of the client queues (1), for which the theorems do
    not care (period <> 0: `counter % 0` would raise). *)
 From Coq Require Import Sorting.Sorted.
-From DS Require Import Base.Prelude Model.PubModel Proofs.PubInv Proofs.PubProofs Proofs.PubFrames
-  Proofs.PubBound.
+From DS Require Import Base.Prelude Model.PubModel Proofs.PubInv Proofs.PubProofs.
+From DS Require Import Proofs.PubFrames Proofs.PubBound Proofs.PubUnsub.
 
 (* 1. The publisher keeps running: in every reachable state the update thread is neither dead
       (exception) nor blocked on a client queue ... *)
@@ -107,6 +107,14 @@ Theorem C08_unsubscribe_applied : forall cf s c, period cf <> 0 -> reachable cf 
   phase_of s c = CDone -> ~ In c (unsubq s) -> processed s c.
 Proof. exact unsubscribe_applied. Qed.
 Print Assumptions C08_unsubscribe_applied.
+
+(* ... and that happens soon: a client that has called unsubscribe is processed in every later
+   state in which the publisher has passed the loop head twice. *)
+Theorem C08_unsubscribe_processed : forall cf, period cf <> 0 -> forall ls s s' c,
+  reachable cf s -> phase_of s c = CDone -> run cf s ls = Some s' -> iter s + 2 <= iter s' ->
+  processed s' c.
+Proof. exact unsubscribe_processed_two_ticks. Qed.
+Print Assumptions C08_unsubscribe_processed.
 
 (* The defect of the pinned loop (F08), the repaired loop on the same schedule, and the necessity
    of the clients' program order *)
